@@ -291,19 +291,22 @@ def _scan_obligation(res, prefix, k, label):
 
 
 PREFIXES = [
+    # (name, prefix, extra characters quick, thorough): 3 extra characters are decided within minutes only for the prefixes whose
+    # continuation stays inside one token kind (measured: comment 106 s, single_quote 108 s, string 138 s, unicode_escape 332 s,
+    # escape 672 s; the others exceed 20 min at 3 and stay at 2)
     ('empty', '', 2, 2),
     ('string', '"', 2, 3),
     ('escape', '"\\', 2, 3),
     ('unicode_escape', '"\\u{', 2, 3),
-    ('interpolation', '"${', 2, 3),
+    ('interpolation', '"${', 2, 2),
     ('single_quote', "'", 2, 3),
-    ('number', '1', 2, 3),
-    ('number_dot', '1.', 2, 3),
-    ('number_exp', '1e', 2, 3),
-    ('identifier', 't', 2, 3),
-    ('instance_access', '@', 2, 3),
-    ('slash', '/', 2, 3),
-    ('space_slash', ' /', 2, 3),
+    ('number', '1', 2, 2),
+    ('number_dot', '1.', 2, 2),
+    ('number_exp', '1e', 2, 2),
+    ('identifier', 't', 2, 2),
+    ('instance_access', '@', 2, 2),
+    ('slash', '/', 2, 2),
+    ('space_slash', ' /', 2, 2),
     ('comment', '//', 2, 3),
 ]
 
